@@ -105,3 +105,20 @@ CASES += [
     {"name": "loader rewinds the file it is given (seeded change of round 7)", "kind": "mutant", "rule": "C18-N", "edits": [
         ("quantarhei/core/parcel.py", "    else:\n        obj = pickle.load(filename)\n", "    else:\n        filename.seek(0)\n        obj = pickle.load(filename)\n", 2)]},
 ]
+
+_MD18 = "quantarhei/core/matrixdata.py"
+_RN_OLD = ("    if ndim is None:\n        # no record: dimensions of length one are dropped as numpy.loadtxt \n        # does by default\n"
+           "        return numpy.squeeze(data)\n    if ndim == 2:\n        return data\n    if ndim == 1:\n        return data.reshape(-1)\n"
+           "    if ndim == 0:\n        return data.reshape(())\n")
+CASES += [
+    {"name": "ranks below two squeezed together with the unrecorded case (seeded change of round 8)", "kind": "mutant", "rule": "C18-O", "edits": [
+        (_MD18, _RN_OLD, "    if ndim == 2:\n        return data\n    if (ndim is None) or (ndim < 2):\n        return numpy.squeeze(data)\n", 1)]},
+    {"name": "rank one restored by squeezing", "kind": "mutant", "rule": "C18-O", "edits": [
+        (_MD18, "    if ndim == 1:\n        return data.reshape(-1)\n", "    if ndim == 1:\n        return numpy.squeeze(data)\n", 1)]},
+    {"name": "recorded ranks first, the unrecorded case last", "kind": "twin", "edits": [
+        (_MD18, _RN_OLD, "    if ndim is not None:\n        if ndim == 2:\n            return data\n        if ndim == 1:\n            return data.reshape(-1)\n"
+                         "        if ndim == 0:\n            return data.reshape(())\n        raise Exception(\"Text files hold data of at most two dimensions\")\n"
+                         "    return numpy.squeeze(data)\n", 1)]},
+    {"name": "rank one restored with ravel", "kind": "twin", "edits": [
+        (_MD18, "    if ndim == 1:\n        return data.reshape(-1)\n", "    if ndim == 1:\n        return numpy.ravel(data)\n", 1)]},
+]
